@@ -25,6 +25,42 @@ OnlyChanged(pre, post, allowed) ==
 MayChange(fn, args) ==
   IF fn \in MutatorFns /\ Len(args) >= 1 THEN {args[1]} ELSE {}
 
+\* "values produced by non-mutating operations are independent of their
+\*  inputs": what a call returns is a new value; it neither IS one of the
+\* containers passed to it nor HOLDS one of them.  Exempt are only the
+\* functions whose documented result is (or holds) an argument:
+\*   - the documented mutators return the container they changed (their
+\*     first argument), which then holds what was put into it;
+\*   - selectors return one of their arguments unchanged by definition
+\*     (identity, the if_... / non_... defaults, min / max of two values,
+\*     the default value of map_get / map_get_pattern / div0, a lambda
+\*     returning its parameter);
+\*   - constructors build a container AROUND their arguments (list / map
+\*     literals, spread, rest arguments, `list + element`, substitute's new
+\*     element, new(cls): the instance refers to its class);
+\*   - string functions handed a container instead of a string give it back
+\*     (esc, replace, basename): outside their documented domain, no new
+\*     container is documented; recorded as drift, not judged.
+\* Everything else (sublist, sorted, chunks, list(), set(), reverse, ...) is
+\* documented to return "a list of ..." / "a copy": a result that is or holds
+\* the argument container itself is a violation.  (Sharing the ELEMENTS of an
+\* argument is not: copies are shallow, see Heap.tla.)
+SelectorFns == {"identity", "if_null", "if_empty", "if_null_or_empty", "non_empty", "non_zero",
+                "min", "max", "map_get", "map_get_pattern", "div0",
+                "operator @1 !> identity()", "operator (fn(x, y) x)(@1, @2)"}
+EchoFns     == {"esc", "replace", "basename", "strip_extension"}
+HolderFns   == {"add", "substitute", "new",
+                "operator @1 + @2", "operator [@1, @2]", "operator <<<@1 => @2>>>",
+                "operator [...@1, @2]", "operator [...@1, ...@2]", "operator [@2, ...@1, @3]",
+                "operator (fn(args...) args)(@1, @2)"}
+
+\* is / holds: the pool positions (among the arguments) whose container the
+\* result is / reaches below its top level
+ResultIndependent(fn, args, is, holds) ==
+  /\ is # {} => \/ fn \in SelectorFns \cup EchoFns
+                \/ fn \in MutatorFns /\ Len(args) >= 1 /\ is = {args[1]}
+  /\ holds # {} => fn \in HolderFns \cup MutatorFns
+
 -----------------------------------------------------------------------------
 (* Cells and containers.  Every field is uniformly typed: a cell is a record
    [t, v] (t = "i": the int v; t = "r": the container with reference v); a
@@ -65,6 +101,23 @@ Elems(c) == {c.items[i].v : i \in DOMAIN c.items}
 MkSet(S) == LET q == SortedSeq(S) IN Mk("set", << >>, [i \in DOMAIN q |-> I(q[i])])
 
 DropIdx(s, j) == [i \in 1..(Len(s) - 1) |-> IF i < j THEN s[i] ELSE s[i + 1]]
+
+\* the first occurrence of every cell, order kept (unique on a list of ints)
+FirstOccs(s) ==
+  LET q == SortedSeq({i \in DOMAIN s : \A j \in 1..(i - 1) : s[j] # s[i]})
+  IN [i \in DOMAIN q |-> s[q[i]]]
+
+\* one level of flattening: a cell that refers to a list is replaced by that
+\* list's cells (shared, not copied), every other cell stays
+RECURSIVE FlatCells(_, _)
+FlatCells(h, s) ==
+  IF s = << >> THEN << >>
+  ELSE (IF IsRef(s[1]) /\ h[s[1].v].k = "list" THEN h[s[1].v].items ELSE <<s[1]>>)
+       \o FlatCells(h, Tail(s))
+
+\* chunks(s, k): consecutive pieces of k cells, the last one possibly shorter
+NumPieces(s, k) == (Len(s) + k - 1) \div k
+Piece(s, k, j)  == SubSeq(s, (j - 1) * k + 1, IF j * k < Len(s) THEN j * k ELSE Len(s))
 Rev(s) == [i \in 1..Len(s) |-> s[Len(s) + 1 - i]]
 
 HasKey(c, k) == \E i \in DOMAIN c.keys : c.keys[i] = k
